@@ -296,6 +296,25 @@ def k_status_maps(ctx, action, status4):
         ctx.check("status_maps", ok and (int(t[0]), t[1]) == (action, status4), "enum_to_action_status", "", case, observed=repr(t))
 
 
+def k_generic_status(ctx, action, s4, first, second):
+    """A filestore response built with one of the two action-independent status members (SUCCESS = 0b0000, NOT_PERFORMED =
+    0b1111) for any action code: the first value octet is the action code in the upper and the status in the lower nibble."""
+    X = C.lib()
+    case = {"k": "generic_status", "action": action, "s4": s4, "first": first, "second": second}
+    ctx.case("generic_status", (action, s4, first, second), sample=case)
+    two = action in R.TWO_NAME_ACTIONS
+    member = X.FilestoreResponseStatusCode.SUCCESS if s4 == 0 else X.FilestoreResponseStatusCode.NOT_PERFORMED
+    want = R.tlv(1, R.fs_response_value(action, s4, first.encode(), second.encode() if two else b"", b"\x01\x02"))
+    ok, o = attempt(lambda: X.FileStoreResponseTlv(X.FilestoreActionCode(action), member, first, second if two else None, X.CfdpLv(b"\x01\x02")))
+    ok2, raw = attempt(lambda: bytes(o.pack())) if ok else (False, o)
+    if not ctx.check("concrete.pack", ok and ok2 and raw == want and o.packet_len == len(want), "octets_with_action_independent_status_member", f"action={action}/s4={s4}", case,
+                     expected=want[:40], observed=raw[:40] if ok2 else repr(raw)):
+        return
+    ok, u = attempt(X.FileStoreResponseTlv.unpack, want)
+    ctx.check("concrete.unpack", ok and int(u.action_code) == action and int(u.status_code) & 0xF == s4 and u.first_file_name == first and (not two or u.second_file_name == second)
+              and bytes(u.pack()) == want, "decode_of_response_with_action_independent_status", f"action={action}/s4={s4}", case, observed=repr(u)[:200])
+
+
 def k_holder_reuse(ctx, seed):
     """One TlvHolder handed one TLV after the other (generic and concrete ones, of every type): every conversion answers for the
     TLV the holder holds at that moment."""
@@ -329,7 +348,7 @@ def k_holder_reuse(ctx, seed):
                 return ctx.fail("holder.reuse", "wrong_error", f"{target}<-{name}/{type(res).__name__}", dict(case, trail=trail), error=repr(res))
 
 
-KINDS = {"holder_reuse": k_holder_reuse, "defaults": k_defaults, "tlv": k_tlv, "lv": k_lv, "refuse": k_refuse, "concrete": k_concrete, "type_safety": k_type_safety, "status_maps": k_status_maps}
+KINDS = {"generic_status": k_generic_status, "holder_reuse": k_holder_reuse, "defaults": k_defaults, "tlv": k_tlv, "lv": k_lv, "refuse": k_refuse, "concrete": k_concrete, "type_safety": k_type_safety, "status_maps": k_status_maps}
 NAME_POOL = ["", "a", "/tmp/test.txt", "dir/子/ファイル.bin", "é" * 30, "n" * 100]
 
 
@@ -434,6 +453,10 @@ def run(ctx):
         else:
             p = C.rand_response(r)
         k_concrete(ctx, name, p, suffix=rand_bytes(r, r.choice((0, 0, 1, 4))).hex())
+    for a in actions:
+        for s4 in (0, 15):
+            for first in NAME_POOL[1:4]:
+                k_generic_status(ctx, a, s4, first, r.choice(NAME_POOL[1:5]))
     for j in range(ctx.n(400, 40_000)):
         k_holder_reuse(ctx, ctx.seed * 1_000_003 + ctx.shard[0] * 100_003 + j)
     # type safety matrix: 6 classes x 5 foreign types x 4 routes
